@@ -369,6 +369,6 @@ pub fn def() -> PropertyDef {
 			"OpenSSL and webpki implement RFC 5280 path validation for the dimensions each is asked about",
 			"webpki is not asked about the trust anchor's own CA flag, validity or key usage, which it does not examine",
 		],
-		subs: vec![prop_sub("chains", 4_000, 250_000, chain_spec, check_chain)],
+		subs: vec![prop_sub("chains", 16_000, 250_000, chain_spec, check_chain)],
 	}
 }
